@@ -131,10 +131,15 @@ class Reporter:
         # known findings: one line per listed finding that was observed
         seen = set()
         for k, v in matched:
-            if k['id'] not in seen:
-                seen.add(k['id'])
-                print('KNOWN-FINDING: property=%s %s' % (self.prop, k['what']))
+            seen.add(k['id'])
+        for k in known:
+            print('KNOWN-FINDING: property=%s %s [%s]' % (
+                self.prop, k['what'],
+                'reproduced in this run' if k['id'] in seen
+                else 'not reached within this tier\'s bounds'))
         rdir = os.path.join(VERIF, 'replays', self.prop)
+        if os.environ.get('VERIF_NO_EVIDENCE'):
+            rdir = os.path.join(VERIF, 'replays', '_mutation', self.prop)
         paths = []
         for v in new:
             os.makedirs(rdir, exist_ok=True)
